@@ -8,7 +8,7 @@ import SynthVerif.Model.Lfo
 namespace Shape
 open Gen.Shape
 
-theorem lfo : typesLfo = ["PhaseAccumulator<TOT_NUM_ACCUM_BITS,NUM_LUT_INDEX_BITS>"] := rfl
+theorem lfo : typesLfo = ["PhaseAccumulator<N,N>"] := rfl
 theorem waveshape : typesWaveshape = ["", "", "", "", ""] := rfl
 theorem lfoPhaseAccumulator : typesPhaseAccumulator = ["bool", "f32", "u32", "u32", "u32", "u32"] := rfl
 theorem lfoNoStatics : statics = [] := rfl
